@@ -121,7 +121,11 @@ StepEnv(rec) ==
     [] OTHER -> UNCHANGED <<S, mem, cfg, skip, res>>
 
 \* fold the finished scenario's monitor into the result
-Harvest(m) == [bad |-> IF Len(mres.bad) < 40 THEN mres.bad \o m.bad ELSE mres.bad,
+\* per batch: at most 12 entries per tag
+RECURSIVE AppendCapped(_, _)
+AppendCapped(acc, new) == IF new = <<>> THEN acc
+                          ELSE AppendCapped(IF TagCount(acc, Head(new).p) < 12 THEN Append(acc, Head(new)) ELSE acc, Tail(new))
+Harvest(m) == [bad |-> AppendCapped(mres.bad, m.bad),
                ulog |-> IF Len(mres.ulog) < 20 THEN mres.ulog \o m.ulog ELSE mres.ulog, uncl |-> mres.uncl + m.uncl, txns |-> mres.txns + m.txns,
                units |-> mres.units + m.units, evs |-> mres.evs + m.evs, lostend |-> mres.lostend + (IF m.lost THEN 1 ELSE 0)]
 
